@@ -141,7 +141,7 @@ def run(tier, seed, t0):
         if not all(t["exact"] for t in rows):
             raise core.Machinery("a coordinate is not a multiple of 1/K: scaling assumption broken")
         val = core.validate("Trace_Layout", "J20", tf, work, constants=consts)
-        rejected, clauses = [], Counter()
+        rejected, clauses = core.track([]), Counter()
         for t, v in zip(rows, val["verdicts"]):
             clauses[v[0]] += 1
             if v[0] != "ok":
